@@ -37,6 +37,7 @@ pub enum Site {
 }
 
 const ITERATING: [&str; 14] = ["moov", "trak", "mdia", "minf", "stbl", "dinf", "udta", "meta", "ilst", "moof", "traf", "mvex", "avc1", "mp4a"];
+pub const SPARE_KINDS: [&str; 20] = SPARE_OK;
 const SPARE_OK: [&str; 20] = ["mvhd", "tkhd", "mdhd", "vmhd", "smhd", "stts", "ctts", "stss", "stsc", "stsz", "stco", "co64", "elst", "mehd", "trex", "mfhd", "tfhd", "tfdt", "trun", "stsd"];
 const SWAP_PARENTS: [&str; 8] = ["moov", "trak", "mdia", "minf", "stbl", "udta", "ilst", "traf"];
 
